@@ -153,6 +153,63 @@ func jobC13(c *rt.Ctx) {
 			}
 		}
 	}
+	// hash selectors beyond the ones the crypto package registers (crypto.Hash methods panic on them):
+	// Sign must answer with an error and VerifyBatch with all-false entries, never with a panic
+	c.Require("selector-sweep")
+	var sels []uint
+	for h := uint(0); h <= 40; h++ {
+		sels = append(sels, h)
+	}
+	sels = append(sels, 63, 64, 65, 200, 255, 256, 1<<16, 1<<31, 1<<32-1)
+	digest64 := msgOf(0, vPh)
+	for _, sel := range sels {
+		if !c.Take() {
+			continue
+		}
+		c.Class("selector-sweep")
+		c.Distinct(fmt.Sprintf("sel %d", sel), true)
+		hf := crypto.Hash(sel)
+		okSel := sel == 0 || hf == crypto.SHA512
+		d := map[string]interface{}{"hash": sel}
+		for style := 0; style < 2; style++ {
+			var o crypto.SignerOpts = hf
+			if style == 1 {
+				o = &Options{Hash: hf, Context: "c"}
+			}
+			want := "error"
+			if okSel {
+				want = "value"
+			}
+			got, _, pv := outcome(func() (interface{}, error) { return PrivateKey(priv).Sign(nil, digest64, o) })
+			expect("sign-selector", want, got, pv, d)
+		}
+		for _, n := range []int{1, 3, 4, 7, 65} {
+			es := fillers(vPh, n)
+			pubs := make([]PublicKey, n)
+			msgs := make([][]byte, n)
+			sigs := make([][]byte, n)
+			for i := range es {
+				pubs[i], msgs[i], sigs[i] = es[i].key, es[i].msg, es[i].sig
+			}
+			all, valid, err, pv := func() (a bool, v []bool, e error, pv interface{}) {
+				defer func() { pv = recover() }()
+				a, v, e = VerifyBatch(rt.NewRng(1, "sel"), pubs, msgs, sigs, &Options{Hash: hf})
+				return
+			}()
+			c.Step(1)
+			bad := pv != nil || err != nil || len(valid) != n
+			if !bad && !okSel {
+				bad = all
+				for _, v := range valid {
+					bad = bad || v
+				}
+			}
+			if bad {
+				dd := map[string]interface{}{"hash": sel, "n": n, "panic": fmt.Sprint(pv), "err": fmt.Sprint(err), "all": all}
+				c.Violation(fmt.Sprintf("C13 batch-selector ok=%v", okSel), fmt.Sprintf("VerifyBatch of %d entries with hash selector %d: panic=%v err=%v all=%v valid=%v", n, sel, pv, err, all, valid), dd)
+			}
+		}
+	}
 	// Sign / PrivateKey.Sign / NewKeyFromSeed: key length x message length x options
 	for _, kl := range keyLens {
 		for _, ml := range msgLens {
